@@ -41,7 +41,7 @@ m = {
                  "kind_free_text": "home-made VC generator for Go (go/packages + go/types, forward symbolic execution with contracts kept in //@ comment files), z3 4.8.12 / z3 5.1.0 / cvc5 1.0.3 portfolio"}],
     "checks": checks,
     "not_applicable": na,
-    "notes": "Exit codes of ./check: 0 held, 1 VIOLATION, 2 broken check (engine self-check failed), 3 undecided (a keyed function or loop disappeared). Known findings: /verif/known_findings.jsonl.",
+    "notes": "Exit codes of ./check: 0 held, 1 VIOLATION, 2 broken check (engine self-check failed), 3 undecided (a keyed function or loop disappeared). Known findings: /verif/known_findings.txt.",
 }
 json.dump(m, open(os.path.join(root, "MANIFEST.json"), "w"), indent=1)
 print("claimed:", [c["property_id"] for c in checks], "n/a:", len(na))
